@@ -386,6 +386,8 @@ def build(spec):
         suites = [s]
     else:
         suites = [mk(n) for n in tree]
+    for bm in spec.get('bad_modules') or ():
+        suites.append(_startup_failure(bm))
     b = Built()
     b.spec = spec
     b.layers = layers
@@ -399,6 +401,19 @@ def build(spec):
         setattr(m, type(inst).__name__, type(inst))
     b.module = m
     return b
+
+
+class _Opt:
+    post_mortem = False
+
+
+def _startup_failure(name):
+    from zope.testrunner.find import StartUpFailure
+    try:
+        raise ImportError('cannot import %s (injected)' % name)
+    except ImportError:
+        ei = sys.exc_info()
+    return StartUpFailure(_Opt, name, ei[:2] + (None,))
 
 
 def install(built):
